@@ -242,7 +242,9 @@ def convertall(table, *args, **kwargs):
     """
 
     # TODO don't read the data twice!
-    return convert(table, fieldnames(table), *args, **kwargs)
+    # N.B., select the fields by position, field names need not be unique
+    return convert(table, tuple(range(len(fieldnames(table)))), *args,
+                   **kwargs)
 
 
 Table.convertall = convertall
